@@ -229,7 +229,22 @@ def build_ref(r, layout=0, secret=False):
     fmt = 'old' if layout & 1 else 'new'
     trust = wire.build_packet(12, b'\x00\x03', fmt) if layout & 2 else b''
     out = bytearray()
-    out += wire.build_packet(5 if secret else 6, keypool.secret_body(r['primary']) if secret else ppub.body, fmt) + trust
+    nsec = [0]
+
+    def sec_body(kid):
+        # layout bit 16: secret packets protected the way other implementations do (salted / simple / iterated S2K in turn, usage 254 / 255)
+        if not layout & 16:
+            return keypool.secret_body(kid)
+        from .refpgp import s2k as rs2k
+        n = nsec[0]
+        nsec[0] += 1
+        kind = ['salted', 'simple', 'iterated'][n % 3]
+        spec = rs2k.Spec(kind, [2, 8][n % 2], b'' if kind == 'simple' else bytes(range(0xA1, 0xA9)), 9 if kind == 'iterated' else None)
+        return keypool.secret_body(kid, protect={'usage': [254, 255][(n // 3) % 2], 'sym': [7, 9, 3][n % 3], 'spec': spec, 'iv': bytes(range(16))[:8 if n % 3 == 2 else 16], 'passphrase': 'foreign pw'})
+    m.secret_bodies = []
+    body0 = sec_body(r['primary']) if secret else ppub.body
+    m.secret_bodies.append(body0)
+    out += wire.build_packet(5 if secret else 6, body0, fmt) + trust
 
     def emit_sig(comp, body, exportable=True):
         m.att.append((comp, body, exportable))
@@ -237,6 +252,10 @@ def build_ref(r, layout=0, secret=False):
 
     def mk(signer_kid, sigtype, subject, t, extra=b'', unhashed_extra=b''):
         sec = keypool.ref_secret(signer_kid)
+        if layout & 8:
+            # layout bit 8: legal encodings PGPy would not choose itself (five-octet subpacket lengths, a private-use subpacket, unknown keyserver-preference bits)
+            hashed = keypool.sp(33, b'\x04' + sec.pub.fingerprint) + keypool.sp(2, wire.u32(BASE + t), lenform=5) + extra + keypool.sp(100, b'foreign', lenform=5) + keypool.sp(23, b'\xC1')
+            return rsig.sign(sec, sigtype, 8, subject, hashed, keypool.sp(16, sec.pub.keyid) + unhashed_extra)
         return rsig.sign(sec, sigtype, 8, subject, keypool.std_hashed(BASE + t, sec.pub.fingerprint, extra), keypool.sp(16, sec.pub.keyid) + unhashed_extra)
 
     if r['revoked']:
@@ -276,7 +295,9 @@ def build_ref(r, layout=0, secret=False):
         spub = ssec.pub
         comp = ('sub', spub.fingerprint.hex().upper())
         m.subs.append(comp[1])
-        out += wire.build_packet(7 if secret else 14, keypool.secret_body(sk['kid']) if secret else spub.body, fmt) + trust
+        sbody = sec_body(sk['kid']) if secret else spub.body
+        m.secret_bodies.append(sbody)
+        out += wire.build_packet(7 if secret else 14, sbody, fmt) + trust
         u = sub_usage(sk['kid'])
         unh = b''
         if u & 0x02:
